@@ -252,3 +252,33 @@ SPECS["C16"] = {
     "assumptions": ["argument vocabulary as listed in the harness", "program thread id 1"],
     "outside": ["telnet debug server / CLI", "JSON encoding of results", "more than 2 commands in sequence"],
 }
+
+_C07 = ["interpreter/common.go", "interpreter/c07.go"]
+SPECS["C07"] = {
+    "explanation": "Real Lex goroutine + real ParseWithRuntime on (a) all sequences of K tokens chosen symbolically from a table of token texts, (b) valid base programs "
+                   "with 1-2 positions replaced/deleted/duplicated symbolically, (c) the lexer alone on N arbitrary bytes. Asserted: tree xor positioned error, no nil "
+                   "node, no goroutine alive after the call; PrettyPrint / Validate / Eval are run on every returned tree as the judge of well-formedness (no panic).",
+    "level_text": "bounded: all token sequences up to K over the table, all 1-2 token mutations of 8 base programs, all byte strings up to N",
+    "level_note": "trusts go/ssa, gosym (goroutines/channels, unicode tables up to U+2FFF, regexp NFA unrolling), z3; token texts are representatives, not all 70 token ids",
+    "harnesses": [
+        {"name": "H4-tokens-K%d" % k, "pkg": "interpreter", "files": _C07, "fn": "VerifC07Tokens",
+         "what": "all sequences of %d tokens over the first %d token texts" % (k, t), "reach": ["parsed", "tree"],
+         "quick": {"params": {"K": k, "T": t, "EVAL": 1}, "unwind": 40, "wall_s": 600} if q else None,
+         "thorough": {"params": {"K": k, "T": t, "EVAL": 1}, "unwind": 40, "wall_s": 3000}}
+        for (k, t, q) in ((1, 33, True), (2, 33, True), (3, 12, True), (3, 33, False), (4, 12, False))
+    ] + [
+        {"name": "H3-mutations-%d" % m, "pkg": "interpreter", "files": _C07, "fn": "VerifC07Mutations",
+         "what": "8 base programs, %d symbolic mutation(s) (replace by one of %d texts / delete / duplicate)" % (m, t), "reach": ["parsed", "tree"],
+         "quick": {"params": {"MUT": m, "T": t}, "unwind": 40, "wall_s": 600} if m == 1 else None,
+         "thorough": {"params": {"MUT": m, "T": t}, "unwind": 40, "wall_s": 3000}}
+        for (m, t) in ((1, 33), (2, 12))
+    ] + [
+        {"name": "H2-lexer-bytes-%d" % n, "pkg": "parser", "files": ["parser/c07.go"], "fn": "VerifC07LexTotal",
+         "what": "lexer on all ASCII inputs of %d bytes" % n, "reach": ["lexed"],
+         "quick": {"params": {"N": n}, "unwind": 16, "wall_s": 600} if n <= 3 else None,
+         "thorough": {"params": {"N": n}, "unwind": 16, "wall_s": 3000}}
+        for n in (2, 3, 4)
+    ],
+    "assumptions": ["token texts separated by one blank", "ASCII bytes in the lexer harness"],
+    "outside": ["sequences longer than K", "trees reachable only with more tokens", "non-ASCII input bytes"],
+}
